@@ -73,6 +73,7 @@ def gen_case(world, tier, prop):
   cont_ids = []       # ids of shareable containers
   tok = [1000]
   ids = [0]
+  use_late = rng.random() < 0.12   # a node type registered after its first use
 
   def new_id():
     ids[0] += 1
@@ -98,7 +99,8 @@ def gen_case(world, tier, prop):
       return {'hostile': 1}
     if depth >= 2:
       return token()
-    kind = rng.choice(['list', 'list', 'tuple', 'dict', 'box', 'nt'])
+    kind = rng.choice(['list', 'list', 'tuple', 'dict', 'box', 'nt']
+                      + (['late', 'late'] if use_late else []))
     n = 2 if kind == 'nt' else rng.randint(0, 3)
     items = [child(depth + 1) for _ in range(n)]
     cid = new_id()
@@ -208,7 +210,7 @@ def gen_case(world, tier, prop):
   return {'defs': defs, 'root': root, 'shape': shape, 'fmt': fmt,
           'nested': nested, 'only_uid': None,
           'mutating': frng.random() < 0.25, 'sticky': frng.random() < 0.2,
-          'refused': frng.random() < 0.2}
+          'refused': frng.random() < 0.2, 'late': use_late}
 
 
 def _refresh_ids(x, base):
@@ -232,7 +234,7 @@ def children_of(v):
     return list(v)
   if isinstance(v, dict):
     return list(v.values())
-  if isinstance(v, stubmod.TempBox):
+  if isinstance(v, (stubmod.TempBox, stubmod.LateBox)):
     return list(v.children)
   return []
 
@@ -244,7 +246,7 @@ def reachable_nodes(root):
   def go(v):
     if id(v) in seen:
       return
-    if isinstance(v, (M.MNode, list, dict, stubmod.TempBox)):
+    if isinstance(v, (M.MNode, list, dict, stubmod.TempBox, stubmod.LateBox)):
       seen.add(id(v))
     for c in children_of(v):
       go(c)
@@ -301,7 +303,7 @@ def mirror(mv, bv, mapping, errs, path='$'):
       for k, a in kwargs.items():
         mirror(a, bv.keywords.get(k), mapping, errs, f'{path}.{k}')
     return
-  if isinstance(mv, (list, dict, stubmod.TempBox)):
+  if isinstance(mv, (list, dict, stubmod.TempBox, stubmod.LateBox)):
     prev = mapping.get(id(mv))
     if prev is not None:
       if prev[1] is not bv:
@@ -315,7 +317,7 @@ def mirror(mv, bv, mapping, errs, path='$'):
   elif isinstance(mv, dict) and isinstance(bv, dict):
     for k in mv:
       mirror(mv[k], bv.get(k), mapping, errs, f'{path}[{k!r}]')
-  elif isinstance(mv, stubmod.TempBox) and isinstance(bv, stubmod.TempBox):
+  elif isinstance(mv, (stubmod.TempBox, stubmod.LateBox)) and isinstance(bv, type(mv)):
     for i, (a, b) in enumerate(zip(mv.children, bv.children)):
       mirror(a, b, mapping, errs, f'{path}[{i}]')
 
@@ -346,7 +348,7 @@ def built_objects(v, acc=None):
     acc[id(v)] = v
     for a in v.values():
       built_objects(a, acc)
-  elif isinstance(v, stubmod.TempBox):
+  elif isinstance(v, (stubmod.TempBox, stubmod.LateBox)):
     acc[id(v)] = v
     for a in v.children:
       built_objects(a, acc)
@@ -399,6 +401,18 @@ def run(case):
     mk_m(d)
     mk_i(d)
   mroot, root = mk_m(case['root']), mk_i(case['root'])
+  if case.get('late') and any(isinstance(o, stubmod.LateBox) for o in _all_values(mroot)):
+    # history: the type is met as an unregistered leaf by a first traversal,
+    # and only then gets its traverser
+    try:
+      fdl.build(root)
+    except Exception:  # pylint: disable=broad-except
+      pass
+    del rec.log[:]
+    stubmod.register_latebox()
+    probes['late_registered_type'] = 1
+  elif case.get('late'):
+    stubmod.register_latebox()
   rec.mutate_args = bool(case.get('mutating'))
   if case.get('refused'):
     # state left behind by an operation that is REFUSED: swapping the callable
